@@ -55,6 +55,11 @@ impl EnrKey for SigningKey {
 impl EnrKeyUnambiguous for SigningKey {
     fn decode_public(bytes: &[u8]) -> Result<Self::PublicKey, DecoderError> {
         // should be encoded in compressed form, i.e 33 byte raw secp256k1 public key
+        // The SEC1 "compact" form (tag 0x05, x coordinate only) is not a public key encoding of
+        // the v4 scheme; the rust-secp256k1 backend rejects it as well.
+        if bytes.first() == Some(&0x05) {
+            return Err(DecoderError::Custom("Invalid Secp256k1 Signature"));
+        }
         VerifyingKey::from_sec1_bytes(bytes)
             .map_err(|_| DecoderError::Custom("Invalid Secp256k1 Signature"))
     }
